@@ -89,6 +89,12 @@ pub struct Runner<'a> {
     pub ended: bool,
     pub polls: u64,
     pub stalled_wakeups: u64,
+    /// perturbation: right after an event whose trace line starts with the prefix has been delivered, the embedder holds
+    /// the shared storage lock (`true`) or app-set lock (`false`) while the machine is polled once more, then lets go
+    pub contend: Option<(String, bool)>,
+    pub storage: Option<std::rc::Rc<futures::lock::Mutex<crate::sm::HStorage>>>,
+    pub app_set: Option<std::rc::Rc<futures::lock::Mutex<crate::sm::HAppSet>>>,
+    pub contended: u64,
 }
 
 #[derive(Debug, PartialEq)]
@@ -119,6 +125,22 @@ impl<'a> Runner<'a> {
 
     /// Poll the event stream once; log an event if one is delivered. Returns false on Pending.
     pub fn poll_stream(&mut self) -> bool {
+        let before = self.hub.lock().unwrap().trace.len();
+        let r = self.poll_stream_once();
+        if r {
+            if let Some((prefix, storage)) = self.contend.clone() {
+                let hit = { let h = self.hub.lock().unwrap(); h.trace.len() > before && h.trace.last().map(|l| l.starts_with(&prefix)).unwrap_or(false) };
+                if hit {
+                    if storage {
+                        if let Some(st) = self.storage.clone() { if let Some(g) = st.try_lock() { self.contended += 1; let _ = self.poll_stream_once(); drop(g); } }
+                    } else if let Some(a) = self.app_set.clone() { if let Some(g) = a.try_lock() { self.contended += 1; let _ = self.poll_stream_once(); drop(g); } }
+                }
+            }
+        }
+        r
+    }
+
+    fn poll_stream_once(&mut self) -> bool {
         if self.ended { return false; }
         let waker = Waker::from(self.flag.clone());
         let mut cx = Context::from_waker(&waker);
